@@ -70,6 +70,18 @@ def gen():
                     if a in l and "=>" not in l and "->" not in l and "fn " not in l and "impl" not in l and "<'" not in l and not s.startswith("#") and "debug_assert" not in l:
                         add("relop", l.replace(a, b, 1))
                         break
+            if fn in ("mod.rs", "macro.rs", "numeric.rs", "buffer.rs") and "debug_assert" not in l and "cfg" not in l:
+                m = re.fullmatch(r"(\s*)(\} else )?if (?!let )(.+) \{", l)
+                if m and "=>" not in l:
+                    add("negate_if", f"{m.group(1)}{m.group(2) or ''}if !({m.group(3)}) {{")
+                if (" && " in l) and "=>" not in l and not s.startswith("//"):
+                    add("andor", l.replace(" && ", " || ", 1))
+                if " == 0" in l and "=>" not in l:
+                    add("eq01", l.replace(" == 0", " == 1", 1))
+                for a, b in (("TokenType::MacroString,", "TokenType::MacroStringEmpty,"), ("TokenType::IntegerLiteral", "TokenType::FloatLiteral"), ("TokenType::StringLiteral", "TokenType::StringExprEnd"), ("TokenType::WS", "TokenType::CStyleComment"), ("TokenType::COMMA", "TokenType::SEMI"), ("TokenType::LPAREN", "TokenType::RPAREN"), ("TokenType::ASSIGN", "TokenType::COMMA"), ("Payload::None", "Payload::Integer(0)")):
+                    if a in l and "emit_token" in l:
+                        add("toktype", l.replace(a, b, 1))
+                        break
             if re.search(r"'[a-z]' \| '[A-Z]'", l):
                 m = re.search(r"'([a-z])' \| '([A-Z])'", l)
                 add("case", l.replace(m.group(0), f"'{m.group(1)}'", 1))
